@@ -1508,7 +1508,7 @@ func (w *World) runScript() {
 			}
 			w.mu.Unlock()
 		default:
-			s := Step{Do: st.Do, I: st.I, Del: st.Del, Wait: st.Wait, Vod: st.Vod, Cls: st.Cls, Mode: "hang"}
+			s := Step{Do: st.Do, I: st.I, Del: st.Del, Wait: st.Wait, Vod: st.Vod, Cls: st.Cls, CtxUs: st.CtxUs, Mode: "hang"}
 			w.exec(&s, now)
 		}
 	}
